@@ -417,6 +417,22 @@ def run_case(case, seed):
             evals += 1
             if not ok or not exact_eq(got, O.qmatmul(O.qH(Ai).astype(np.int64), Ai).astype(float)):
                 fails.append(fail("product!=definition", f"S^H S after reusing S, n={n}", path="ss", aliased=True))
+            # Gram-type products: the second operand is EXACTLY the conjugate transpose of the first (A^H A, A A^H, H H for Hermitian H,
+            # rectangular too), through every storage path
+            for (mm, nn) in ((n, n), (n + 1, n), (n, n + 2)):
+                Gi = fill.ints((mm, nn, 4), -4, 4)
+                Gi[Gi == 0] = 3
+                GH = (O.qH(Gi)).astype(np.int64)
+                for label, Li, Ri in ((f"A^H A {mm}x{nn}", GH, Gi), (f"A A^H {mm}x{nn}", Gi, GH)):
+                    check_product(Li.astype(float), Ri.astype(float), O.qmatmul(Li, Ri).astype(float), label, {"grp": "x", "gram": True})
+            Hi = Ai + O.qH(Ai).astype(np.int64)
+            for t in range(n):
+                Hi[t, t, 1:] = 0
+            check_product(Hi.astype(float), Hi.astype(float), O.qmatmul(Hi, Hi).astype(float), "H H (Hermitian)", {"grp": "x", "gram": True})
+            ok, got = call(lambda: G.from_quat(u.quat_matmat(u.quat_hermitian(Aq), Aq)))
+            evals += 1
+            if not ok or not exact_eq(got, O.qmatmul(O.qH(Ai).astype(np.int64), Ai).astype(float)):
+                fails.append(fail("product!=definition", f"quat_matmat(quat_hermitian(A), A), n={n}", path="dd", aliased=True))
             # non-canonical CSR storage: every entry stored as two summands at the same position
             def noncanon(P):
                 r, c = np.nonzero(np.ones_like(P))
